@@ -27,7 +27,7 @@ impl Prop for C06Prop {
     fn unoptimised_share(&self, tier: Tier) -> f64 {
         match tier {
             Tier::Quick => 0.1,
-            Tier::Thorough => 0.03,
+            Tier::Thorough => 0.01,
         }
     }
     fn rule(&self) -> &'static str {
